@@ -48,6 +48,16 @@ def adopt(src, mid, prop):
     log = {"id": mid, "property": prop, "source_worktree": src, "steps": []}
     try:
         shutil.copytree(demo, os.path.join(d, "zz_demo"), ignore=shutil.ignore_patterns("patch.diff"))
+        # demonstrations written by sub-agents mention their own worktree in scripts: point them at this one
+        for dp, _, fs in os.walk(os.path.join(d, "zz_demo")):
+            for f in fs:
+                fp = os.path.join(dp, f)
+                try:
+                    txt = open(fp).read()
+                except (UnicodeDecodeError, OSError):
+                    continue
+                if src in txt:
+                    open(fp, "w").write(txt.replace(src, d))
         cmd_here = cmd.replace(src, d)
         rc0, out0 = sh(cmd_here, cwd=d)
         log["steps"].append({"cmd": cmd_here, "tree": "unchanged", "exit": rc0, "tail": out0[-600:]})
